@@ -439,12 +439,17 @@ def run(ctx):
     from .common import rule_handlers
     rule_handlers(ctx, "R04.13", lambda f: "/options/" in f.file or f.file.endswith(("lang/optional.hpp", "lang/string.hpp", "env/get.cpp", "env/get.hpp")),
                   (ALLOWED,), "bad user input has to surface as parsing_error", minimum=40)
+    # ---- R04.14: tables indexed by a character
+    ctx.rule("R04.14", "no table on the options path is indexed with a plain `char`: a byte >= 0x80 in an argument is a negative index where char is signed (out-of-bounds write / read instead of the user-input error)")
+    from .common import rule_no_char_index
+    rule_no_char_index(ctx, "R04.14", lambda f: "/options/" in f.file or f.file.endswith(("lang/string.hpp", "io/terminal.hpp")), "a non-ASCII byte in an argument reads or writes outside the table", minimum=40)
     # ---- R04.5: no spurious user-input error - two structural necessary conditions of "exactly when a documented condition holds"
     ctx.rule("R04.5", "no spurious error: every parse starts from emptied value state (R14.2) and an option claims a token only under its own name or letter (R01.5, R01.7, R01.8)")
     if ctx.prop == "C04" and not getattr(ctx, "_sharing", False):
         from .common import share
         share(ctx, "C14", ("R14.2", "R14.3", "R14.5"), "R04.5", "reset obligations shared with C14 (incl. no parser member written on the parse path: a lookup table kept across parses outlives the options it points to)", 3)
         share(ctx, "C13", ("R13.9",), "R04.5", "derived-table obligations shared with C13", 1)
+        share(ctx, "C11", ("R11.4",), "R04.5", "vocabulary obligations shared with C11 (a documented environment word is not refused)", 10)
         share(ctx, "C01", ("R01.5", "R01.7", "R01.8", "R01.11"), "R04.5", "matching obligations shared with C01", 6)
         # ---- R04.6: documented conditions that must raise do raise (positional limit in every mode; syntax check for every token ahead of `--`)
         ctx.rule("R04.6", "the documented rejections `more positionals than accepted` and `malformed dash token ahead of --` are in force on every path (R12.3, R12.6 re-evaluated)")
